@@ -12,6 +12,10 @@
 //            AS:n     caller protocol of MemStore/Rock: take a free slice, prepFreeSlice, size=n, link to the chain
 //            SA startAppending   CW closeForWriting   AW abortWriting
 //     holdR: RD walk the chain (start, size/next of every slice)   CR closeForReading   CF closeForReadingAndFreeIdle
+//     idle : OU:f:k   openForUpdating(update of an entry with key k, fileNoHint f)                  [updater ops: oracle only, not modelled]
+//     holdU: UA:n     append a slice to the fresh chain prefix
+//            CU:j     closeForUpdating with stale.splicingPoint = j-th slice of the stale chain, fresh.splicingPoint = last fresh slice
+//                     (abortUpdating instead when either chain has no slice)      AU abortUpdating
 //   Every applicable op starts with a store to the thread's call marker (object "c"): a step of its own, so that the
 //   non-atomic accesses at the beginning of a method belong to the step of the call.
 // After the schedule is exhausted the remaining threads run to completion round-robin.
@@ -111,9 +115,10 @@ struct Incarnation {
     std::vector<long> sizes;     // what its writer appended, in order
     std::set<int> readers;       // threads between a successful openForReadingAt and their closeForReading* call
     long deletedAt = -1;         // step at which a delete request covering this incarnation returned
+    std::vector<int> slicesInOrder;  // the slices its writer linked, in order
 };
 
-enum SessMode { smIdle, smW, smR };
+enum SessMode { smIdle, smW, smR, smU };
 struct Sess {
     SessMode mode = smIdle;
     int f = -1;
@@ -121,6 +126,9 @@ struct Sess {
     int last = -1;
     int inc = 0;               // incarnation opened
     size_t sizesAtOpen = 0;
+    // updater: reads the stale edition `f`/`inc` (plus the headers lock) and writes the fresh one
+    Ipc::StoreMapUpdate *upd = nullptr;
+    int fresh = -1, freshInc = 0, freshLast = -1;
 };
 
 struct Scenario;
@@ -149,13 +157,18 @@ struct Scenario {
     std::vector<std::string> results;
     std::vector<verif::atomic<uint32_t> *> marker;
     std::vector<int> pool;                    // free slices, last element = top (harness-owned, like a worker's free list)
-    std::vector<int> sliceOwnerF, sliceOwnerInc;   // -1/-1 free, -2/thread private
+    std::vector<std::vector<std::pair<int, int> > > owners;   // (fileno, incarnation) pairs a linked slice belongs to (several after an update)
+    std::vector<int> privOf;                  // thread holding the slice privately (taken, not yet linked), -1 otherwise
     std::vector<Incarnation> inc;             // per anchor
     int nextInc = 1;
     long now = 0;                             // scheduler step counter
     std::map<const void *, int> lockIndex;
 
     void viol(const std::string &v) { sched.note(v); }
+    bool ownedBy(int sl, int f, int incId) const {
+        for (const auto &o : owners[sl]) if (o.first == f && o.second == incId) return true;
+        return false;
+    }
 
     void begin(int t, size_t i) { marker[t]->store(static_cast<uint32_t>(i + 1)); }
 
@@ -170,7 +183,7 @@ struct Scenario {
         results.assign(nthreads, "");
         for (int t = 0; t < nthreads; ++t) { marker.push_back(new verif::atomic<uint32_t>(0)); sched.name(marker[t], "c"); }
         for (int s = N - 1; s >= 0; --s) pool.push_back(s);     // slice 0 on top
-        sliceOwnerF.assign(N, -1); sliceOwnerInc.assign(N, -1);
+        owners.assign(N, std::vector<std::pair<int, int> >()); privOf.assign(N, -1);
         inc.assign(N, Incarnation());
         for (int f = 0; f < N; ++f) {
             auto &a = map->anchors->items[f];
@@ -197,12 +210,27 @@ struct Scenario {
 
     static void keyOf(long k, uint64_t *out) { out[0] = static_cast<uint64_t>(k); out[1] = 0; }
 
+    // a StoreEntry that was never constructed (only plain members are read: key, timestamps, flags); one per thread
+    std::vector<std::vector<char> > entryMem;
+    std::vector<std::vector<uint64_t> > entryKey;
+    StoreEntry *fakeEntry(int t, long k) {
+        if (entryMem.empty()) { entryMem.assign(sess.size(), std::vector<char>(sizeof(StoreEntry) + 64, 0)); entryKey.assign(sess.size(), std::vector<uint64_t>(2, 0)); }
+        keyOf(k, entryKey[t].data());
+        char *p = entryMem[t].data();
+        p += (64 - reinterpret_cast<uintptr_t>(p) % 64) % 64;
+        StoreEntry *e = reinterpret_cast<StoreEntry *>(p);
+        e->key = entryKey[t].data();
+        return e;
+    }
+
     bool applicable(const Op &op, const Sess &s) const {
         const std::string &n = op.name;
         if (n == "OW" || n == "OR" || n == "FE" || n == "FK") return s.mode == smIdle;
         if (n == "SK" || n == "SA") return s.mode == smW && !s.app;
         if (n == "AS" || n == "CW" || n == "AW") return s.mode == smW;
         if (n == "RD" || n == "CR" || n == "CF") return s.mode == smR;
+        if (n == "OU") return s.mode == smIdle;
+        if (n == "UA" || n == "CU" || n == "AU") return s.mode == smU;
         return false;
     }
 
@@ -243,16 +271,16 @@ struct Scenario {
                 if (pool.empty()) r << "x";
                 else {
                     const int sl = pool.back(); pool.pop_back();
-                    if (sliceOwnerF[sl] != -1) viol("allocated-slice-in-use-" + std::to_string(sl));
-                    sliceOwnerF[sl] = -2; sliceOwnerInc[sl] = t;
+                    if (!owners[sl].empty() || privOf[sl] >= 0) viol("allocated-slice-in-use-" + std::to_string(sl));
+                    privOf[sl] = t;
                     map->prepFreeSlice(sl);
                     Ipc::StoreMapSlice *slice; { Quiet q; slice = &map->writeableSlice(s.f, sl); }
                     slice->size = static_cast<uint32_t>(op.a);
                     if (s.last < 0) { Ipc::StoreMapAnchor *anchor; { Quiet q; anchor = &map->writeableEntry(s.f); } anchor->start = sl; }
                     else { Ipc::StoreMapSlice *prev; { Quiet q; prev = &map->writeableSlice(s.f, s.last); } prev->next = sl; }
                     // the slice became part of the entry with the linking store (same step: nobody ran in between)
-                    sliceOwnerF[sl] = s.f; sliceOwnerInc[sl] = s.inc;
-                    inc[s.f].sizes.push_back(op.a);
+                    privOf[sl] = -1; owners[sl].push_back(std::make_pair(s.f, s.inc));
+                    inc[s.f].sizes.push_back(op.a); inc[s.f].slicesInOrder.push_back(sl);
                     s.last = sl;
                     r << sl;
                 }
@@ -285,7 +313,7 @@ struct Scenario {
                     // "complete or being appended": either the writer still holds the entry (then it must be an appending writer,
                     // possibly one that started to abort after this reader got its lock), or the entry was closed for writing
                     const bool writerPresent = anchor->lock.writing.raw();
-                    if (writerPresent ? !(e.state == isAppending || ((e.state == isAborting || e.state == isClosing) && e.wasAppending)) : e.state != isComplete)
+                    if (writerPresent ? !(e.state == isAppending || ((e.state == isAborting || e.state == isClosing) && e.wasAppending)) : !(e.state == isComplete || e.state == isClosing))
                         viol("reader-opened-incomplete-entry-" + std::to_string(f));
                     if (e.deletedAt >= 0 && e.deletedAt < callAt) viol("reader-opened-deleted-entry-" + std::to_string(f));
                     e.readers.insert(t);
@@ -295,21 +323,28 @@ struct Scenario {
                 r << (anchor ? 1 : 0);
             } else if (n == "RD") {
                 std::vector<long> seen;
+                std::vector<int> visited;
                 const Ipc::StoreMapAnchor *anchor; { Quiet q; anchor = &map->readableEntry(s.f); }
                 Ipc::StoreMapSliceId sid = anchor->start;
                 int guard = 0;
                 while (sid >= 0 && guard++ < 4 * N + 4) {
                     if (sid >= N) { viol("reader-followed-invalid-slice"); break; }
-                    if (sliceOwnerF[sid] != s.f || sliceOwnerInc[sid] != s.inc) viol("reader-visited-slice-of-another-entry-" + std::to_string(sid));
+                    if (!ownedBy(sid, s.f, s.inc)) viol("reader-visited-slice-of-another-entry-" + std::to_string(sid));
                     const Ipc::StoreMapSlice *slice; { Quiet q; slice = &map->readableSlice(s.f, sid); }
                     const uint32_t sz = slice->size;
-                    seen.push_back(sz);
+                    seen.push_back(sz); visited.push_back(sid);
                     sid = slice->next;
                 }
                 const Incarnation &e = inc[s.f];
                 bool prefix = e.id == s.inc && seen.size() <= e.sizes.size();
                 for (size_t j = 0; prefix && j < seen.size(); ++j) prefix = seen[j] == e.sizes[j];
-                if (!prefix) viol("reader-saw-content-not-written-to-its-entry");
+                if (!prefix) {
+                    // which slice looked wrong? one that another edition shares (update splicing) is reported as such
+                    size_t bad = 0;
+                    while (bad < seen.size() && bad < e.sizes.size() && seen[bad] == e.sizes[bad]) ++bad;
+                    const bool shared = bad < visited.size() && owners[visited[bad]].size() > 1;
+                    viol(shared ? "shared-slice-changed-while-entry-is-read-" + std::to_string(visited[bad]) : std::string("reader-saw-content-not-written-to-its-entry"));
+                }
                 else if (seen.size() < s.sizesAtOpen) viol("reader-lost-content-of-its-entry");
                 for (size_t j = 0; j < seen.size(); ++j) r << (j ? "." : "") << seen[j];
                 if (seen.empty()) r << "e";
@@ -333,12 +368,89 @@ struct Scenario {
                 r << (res ? 1 : 0);
             } else if (n == "FK") {
                 uint64_t k[2]; keyOf(op.a, k);
-                const int f = static_cast<int>(op.a % N);     // no relocation happens in these scenarios
+                int f; { Quiet q; f = map->fileNoByKey(reinterpret_cast<const cache_key *>(k)); }
                 const int incAtCall = inc[f].id;
                 const bool hit = incAtCall && inc[f].key == op.a;   // the key was set before the call started
                 map->freeEntryByKey(reinterpret_cast<const cache_key *>(k));
-                noteDeleteReturned(f, incAtCall, hit);
+                int fAfter; { Quiet q; fAfter = map->fileNoByKey(reinterpret_cast<const cache_key *>(k)); }
+                if (fAfter == f) noteDeleteReturned(f, incAtCall, hit);      // (an update may relocate the key meanwhile: then nothing is concluded)
                 r << 1;
+            }
+            else if (n == "OU") {
+                // openForUpdating(update, fileNoHint): read+headers lock on the stale edition, a fresh keyless anchor for writing
+                const int hint = static_cast<int>(op.a);
+                StoreEntry *e = fakeEntry(t, op.b);
+                auto *upd = new Ipc::StoreMapUpdate(e);
+                bool ok = false;
+                try { ok = map->openForUpdating(*upd, hint); } catch (...) { viol("exception-in-openForUpdating"); }
+                if (ok) {
+                    const int sf = upd->stale.fileNo, ff = upd->fresh.fileNo;
+                    Incarnation &st = inc[sf];
+                    if (!st.id || st.key != op.b) viol("updater-opened-entry-under-wrong-key-" + std::to_string(sf));
+                    if (st.state != isComplete) viol("updater-opened-incomplete-entry-" + std::to_string(sf));
+                    if (st.deletedAt >= 0 && st.deletedAt < callAt) viol("updater-opened-deleted-entry-" + std::to_string(sf));
+                    st.readers.insert(t);
+                    for (const auto &x : sess) if ((x.mode == smW && x.f == ff) || (x.mode == smU && x.fresh == ff)) viol("two-writers-hold-entry-" + std::to_string(ff));
+                    if (!inc[ff].readers.empty()) viol("writer-opened-entry-held-by-reader-" + std::to_string(ff));
+                    inc[ff] = Incarnation();
+                    inc[ff].id = nextInc++;
+                    inc[ff].state = isWriting;
+                    inc[ff].key = op.b;
+                    s.mode = smU; s.f = sf; s.inc = st.id; s.upd = upd; s.fresh = ff; s.freshInc = inc[ff].id; s.freshLast = -1;
+                } else delete upd;
+                r << (ok ? 1 : 0);
+            } else if (n == "UA") {
+                if (pool.empty()) r << "x";
+                else {
+                    const int sl = pool.back(); pool.pop_back();
+                    if (!owners[sl].empty() || privOf[sl] >= 0) viol("allocated-slice-in-use-" + std::to_string(sl));
+                    privOf[sl] = t;
+                    map->prepFreeSlice(sl);
+                    Ipc::StoreMapSlice *slice; { Quiet q; slice = &map->writeableSlice(s.fresh, sl); }
+                    slice->size = static_cast<uint32_t>(op.a);
+                    if (s.freshLast < 0) { Ipc::StoreMapAnchor *anchor; { Quiet q; anchor = &map->writeableEntry(s.fresh); } anchor->start = sl; }
+                    else { Ipc::StoreMapSlice *prev; { Quiet q; prev = &map->writeableSlice(s.fresh, s.freshLast); } prev->next = sl; }
+                    privOf[sl] = -1; owners[sl].push_back(std::make_pair(s.fresh, s.freshInc));
+                    inc[s.fresh].sizes.push_back(op.a); inc[s.fresh].slicesInOrder.push_back(sl);
+                    s.freshLast = sl;
+                    r << sl;
+                }
+            } else if (n == "CU" || n == "AU") {
+                const int sf = s.f, ff = s.fresh;
+                Ipc::StoreMapUpdate *upd = s.upd;
+                Incarnation &st = inc[sf];
+                const bool staleMine = st.id == s.inc;
+                const bool canClose = n == "CU" && s.freshLast >= 0 && staleMine && !st.slicesInOrder.empty();
+                if (canClose) {
+                    // the caller decides where the headers end in the stale chain: slice number op.a (clipped)
+                    const size_t j = std::min(static_cast<size_t>(op.a), st.slicesInOrder.size() - 1);
+                    upd->stale.splicingPoint = st.slicesInOrder[j];
+                    upd->fresh.splicingPoint = s.freshLast;
+                    // the fresh edition = its own prefix + the stale suffix (shared slices)
+                    Incarnation &fr = inc[ff];
+                    for (size_t x = j + 1; x < st.slicesInOrder.size(); ++x) {
+                        fr.sizes.push_back(st.sizes[x]); fr.slicesInOrder.push_back(st.slicesInOrder[x]);
+                        owners[st.slicesInOrder[x]].push_back(std::make_pair(ff, fr.id));
+                    }
+                    fr.state = isClosing;
+                    const Sess mine = s;
+                    s = Sess();
+                    if (inc[sf].id == mine.inc) inc[sf].readers.erase(t);      // its read lock is released somewhere inside the call
+                    try { map->closeForUpdating(*upd); } catch (...) { viol("exception-in-closeForUpdating"); }
+                    if (inc[ff].id == mine.freshInc && inc[ff].state == isClosing) inc[ff].state = isComplete;
+                    if (inc[sf].id == mine.inc) { inc[sf].readers.erase(t); if (inc[sf].deletedAt < 0) inc[sf].deletedAt = now; }
+                    r << 1;
+                } else {
+                    inc[ff].state = isAborting;
+                    const Sess mine = s;
+                    s = Sess();
+                    if (inc[sf].id == mine.inc) inc[sf].readers.erase(t);
+                    try { map->abortUpdating(*upd); } catch (...) { viol("exception-in-abortUpdating"); }
+                    if (inc[ff].id == mine.freshInc && inc[ff].state == isAborting) inc[ff].state = isAborted;
+                    if (inc[sf].id == mine.inc) inc[sf].readers.erase(t);
+                    r << 0;
+                }
+                delete upd;
             }
             results[t] += n + "=" + r.str() + ",";
         }
@@ -349,17 +461,18 @@ void Cleaner::noteFreeMapSlice(const Ipc::StoreMapSliceId sliceId)
 {
     Scenario &sc = *Cur;
     if (sliceId < 0 || sliceId >= sc.N) { sc.viol("freed-invalid-slice"); return; }
-    const int f = sc.sliceOwnerF[sliceId];
-    if (f == -1) sc.viol("slice-freed-twice-" + std::to_string(sliceId));
-    else if (f == -2) sc.viol("freed-slice-not-yet-linked-" + std::to_string(sliceId));
-    else {
-        if (sc.inc[f].id == sc.sliceOwnerInc[sliceId] && !sc.inc[f].readers.empty())
-            sc.viol("slice-freed-while-entry-is-read-" + std::to_string(sliceId));
+    if (sc.privOf[sliceId] >= 0) sc.viol("freed-slice-not-yet-linked-" + std::to_string(sliceId));
+    else if (sc.owners[sliceId].empty()) sc.viol("slice-freed-twice-" + std::to_string(sliceId));
+    for (const auto &o : sc.owners[sliceId]) {
+        const int f = o.first;
+        if (sc.inc[f].id == o.second && !sc.inc[f].readers.empty())
+            sc.viol(std::string(sc.owners[sliceId].size() > 1 ? "shared-" : "") + "slice-freed-while-entry-is-read-" + std::to_string(sliceId));
         for (const auto &x : sc.sess)
-            if (x.mode == smW && x.f == f && x.inc == sc.sliceOwnerInc[sliceId]) sc.viol("slice-freed-while-entry-is-written-" + std::to_string(sliceId));
+            if ((x.mode == smW && x.f == f && x.inc == o.second) || (x.mode == smU && x.fresh == f && x.freshInc == o.second))
+                sc.viol("slice-freed-while-entry-is-written-" + std::to_string(sliceId));
     }
     for (int p : sc.pool) if (p == sliceId) sc.viol("slice-pushed-twice-" + std::to_string(sliceId));
-    sc.sliceOwnerF[sliceId] = -1; sc.sliceOwnerInc[sliceId] = -1;
+    sc.owners[sliceId].clear(); sc.privOf[sliceId] = -1;
     sc.pool.push_back(sliceId);
 }
 
@@ -396,10 +509,10 @@ static bool parseOps(const std::string &txt, std::vector<Op> &out)
     for (const auto &tk : split(txt, ',')) {
         const auto parts = split(tk, ':');
         Op op; op.name = parts[0];
-        static const char *known[] = {"OW", "SK", "AS", "SA", "CW", "AW", "OR", "RD", "CR", "CF", "FE", "FK"};
-        static const int arity[] = {2, 2, 1, 0, 0, 0, 2, 0, 0, 0, 1, 1};
+        static const char *known[] = {"OW", "SK", "AS", "SA", "CW", "AW", "OR", "RD", "CR", "CF", "FE", "FK", "OU", "UA", "CU", "AU"};
+        static const int arity[] = {2, 2, 1, 0, 0, 0, 2, 0, 0, 0, 1, 1, 2, 1, 1, 0};
         int k = -1;
-        for (int i = 0; i < 12; ++i) if (op.name == known[i]) k = i;
+        for (int i = 0; i < 16; ++i) if (op.name == known[i]) k = i;
         if (k < 0 || static_cast<int>(parts.size()) != arity[k] + 1) return false;
         for (size_t j = 1; j < parts.size(); ++j) {
             if (parts[j].empty() || parts[j].size() > 6) return false;
@@ -431,8 +544,8 @@ int main()
         for (size_t t = 0; ok && t < per.size(); ++t) ok = parseOps(per[t], ops[t]);
         // filenos must address existing anchors, keys are non-zero (zero means "empty" in the map)
         for (const auto &v : ops) for (const auto &op : v) {
-            if ((op.name == "OW" || op.name == "OR" || op.name == "FE") && op.a >= N) ok = false;
-            if (op.name == "OR" && op.b == 0) ok = false;
+            if ((op.name == "OW" || op.name == "OR" || op.name == "FE" || op.name == "OU") && op.a >= N) ok = false;
+            if ((op.name == "OR" || op.name == "OU") && op.b == 0) ok = false;
             if ((op.name == "SK" || op.name == "FK") && op.a == 0) ok = false;
         }
         if (!ok) { puts("bad-op"); fflush(stdout); continue; }
